@@ -513,23 +513,41 @@ fn one_case(rep: &mut Report, model: &mut Model, rng: &mut Rng, case_no: u64, si
         // start every round from the unfaulted directory
         let dir = scratch.path().join(format!("round{ri}"));
         copy_dir(&base, &dir);
-        let mut effective: Vec<String> = Vec::new();
-        for f in faults {
-            let c = apply_fault(&dir, &thread, f, &versions);
-            rep.count(&format!("fault_{}", c.split(':').next().unwrap().replace('-', "_")));
-            effective.push(c);
-        }
         let append_seed = rng.next();
-        let do_appends = |d: &Path| {
-            // the authority restarts on the damaged caches and keeps appending
-            let (_l, s) = open(d, &ws);
+        // half of the rounds with later appends lose their caches while the authority is RUNNING (it
+        // has appended to the thread before, so the next seq is in memory): the appends go on in the
+        // same process. The other half restart the authority on the damaged caches first.
+        let live = *append_after && append_seed % 2 == 0;
+        let grow_more = |s: &ContinuityStore| {
             let mut h2 = Hist { msgs: h.msgs.clone(), runs: h.runs + 1000 };
             let mut arng = Rng::new(append_seed);
-            grow(&s, &thread, &mut arng, 3, &mut h2, false);
+            grow(s, &thread, &mut arng, 3, &mut h2, false);
         };
+        // applies the kept faults (and the appends) to `d`; returns what each fault did
+        let run_round = |d: &Path, keep: &Vec<bool>, with_appends: bool| -> Vec<String> {
+            let apply = |d: &Path| -> Vec<String> { faults.iter().zip(keep.iter()).filter(|(_, k)| **k).map(|(f, _)| apply_fault(d, &thread, f, &versions)).collect() };
+            if with_appends && live {
+                let (_l, s) = open(d, &ws);
+                let _ = s.append_message(&thread, "user".into(), "cli".into(), "while the caches are intact".into());
+                let classes = apply(d);
+                grow_more(&s);
+                classes
+            } else {
+                let classes = apply(d);
+                if with_appends {
+                    let (_l, s) = open(d, &ws);
+                    grow_more(&s);
+                }
+                classes
+            }
+        };
+        let all = vec![true; faults.len()];
+        let effective: Vec<String> = run_round(&dir, &all, *append_after);
+        for c in &effective {
+            rep.count(&format!("fault_{}", c.split(':').next().unwrap().replace('-', "_")));
+        }
         if *append_after {
-            do_appends(&dir);
-            rep.count("rounds_with_appends_after_faults");
+            rep.count(if live { "rounds_with_appends_after_faults_same_process" } else { "rounds_with_appends_after_faults_after_restart" });
         }
         // the appends themselves must not have been affected by the damaged caches (C05 covers the
         // numbering; here only answers are compared)
@@ -563,14 +581,7 @@ fn one_case(rep: &mut Report, model: &mut Model, rng: &mut Rng, case_no: u64, si
                     let d1 = scratch.path().join("shrink");
                     let _ = std::fs::remove_dir_all(&d1);
                     copy_dir(&base, &d1);
-                    for (f, k) in faults.iter().zip(keep.iter()) {
-                        if *k {
-                            apply_fault(&d1, &thread, f, &versions);
-                        }
-                    }
-                    if keep_appends {
-                        do_appends(&d1);
-                    }
+                    let _ = run_round(&d1, keep, keep_appends);
                     let (a1, b1) = compare(scratch.path(), "s", &d1, &ws, &thread, &q, Some(name));
                     let r = a1.get(*name) != b1.get(*name);
                     let _ = std::fs::remove_dir_all(&d1);
@@ -590,7 +601,7 @@ fn one_case(rep: &mut Report, model: &mut Model, rng: &mut Rng, case_no: u64, si
                     let d2 = scratch.path().join("classify");
                     let _ = std::fs::remove_dir_all(&d2);
                     copy_dir(&base, &d2);
-                    let v: Vec<String> = faults.iter().zip(keep.iter()).filter(|(_, k)| **k).map(|(f, _)| apply_fault(&d2, &thread, f, &versions)).filter(|c| c != "noop").collect();
+                    let v: Vec<String> = run_round(&d2, &keep, false).into_iter().filter(|c| c != "noop").collect();
                     let _ = std::fs::remove_dir_all(&d2);
                     v
                 };
@@ -618,7 +629,7 @@ fn one_case(rep: &mut Report, model: &mut Model, rng: &mut Rng, case_no: u64, si
             rep.oracle_failure(
                 &sig,
                 &format!("{name} ({size_note}): caches as found → {} ; caches removed → {}", va.map(describe).unwrap_or("<not evaluated>".into()), vb.map(describe).unwrap_or("<not evaluated>".into())),
-                json!({"case": case_no, "size": size, "faults": faults.iter().map(|f| format!("{f:?}")).collect::<Vec<_>>(), "appends_after_faults": append_after, "frames": frames_now, "sidecar_bytes": sidecar_len, "stride": q.stride, "limit": q.limit}),
+                json!({"case": case_no, "size": size, "faults": faults.iter().map(|f| format!("{f:?}")).collect::<Vec<_>>(), "appends_after_faults": append_after, "appends_in_the_same_process": live, "frames": frames_now, "sidecar_bytes": sidecar_len, "stride": q.stride, "limit": q.limit}),
             );
         }
         // ---- truth answers vs the Lean specification (tail-scanning queries)
